@@ -276,7 +276,7 @@ def minimise(prop, v):
         tries[0] += 1
         try:
             return any(f['oracle'] == oracle for f in evaluate(prop, c))
-        except Exception:
+        except (Exception, core.HarnessError, core.RunTimeout, core.BudgetExceeded):
             return False
 
     def attempt(mut):
